@@ -136,9 +136,9 @@ CLAIMED.update({
 
 CLAIMED.update({
     "C19": {
-        "text": "Coq theorems (closed under the global context) over a model of abasic_web::JsInterpreter in which the adapter's asserts, the panic! arm of get_state and every core panic are explicit traps, and of the page script's handlers: each adapter call, under exactly the precondition the page establishes before making it, cannot trap and re-establishes the invariant (core well-formed, never left in the transient new-interpreter state, idle whenever an error is latched) (C19_start_evaluating, C19_continue_evaluating, C19_get_state); hence NO sequence of page events after start-up - start, submitted lines and replies of arbitrary text, break requests incl. the emoji alias, timer ticks in any order with any number of pending timers - traps or throws (C19_trap_free, induction over events on top of C01's safety theorems); outputs (type and Display text), state and error text (message, source line, caret) are the image of what the core yields for the same calls (C19_outputs, C19_state, C19_error_text_*); NEW yields exactly the fresh interpreter (C19_new); the modelled handlers are the script's: the call skeleton regenerated from main.ts on every run equals the modelled one (C19_skeleton). Tied to the code by driving the real adapter natively through a Rust transliteration of main.ts side by side with a bare core interpreter, the model page answering every event identically.",
+        "text": "Coq theorems (closed under the global context) over a model of abasic_web::JsInterpreter in which the adapter's asserts, the panic! arm of get_state and every core panic are explicit traps, and of the page script's handlers: each adapter call, under exactly the precondition the page establishes before making it, cannot trap and re-establishes the invariant (core well-formed, never left in the transient new-interpreter state, idle whenever an error is latched) (C19_start_evaluating, C19_continue_evaluating, C19_get_state); hence NO sequence of page events after start-up - start, submitted lines and replies of arbitrary text, break requests incl. the emoji alias, timer ticks in any order with any number of pending timers - traps or throws (C19_trap_free, induction over events on top of C01's safety theorems), and neither does a WHOLE page session that first loads a program file of ANY text into the new page (C19_session_trap_free, C19_loader: a line that starts with a digit is never a command and either edits the program, leaving the interpreter idle, or is rejected so that the loader stops - a digit run beyond u64 is an immediate line starting with a number token, which no statement starts with; parser and tokenizer facts proved in Proofs/LoaderProofs.v); outputs (type and Display text), state and error text (message, source line, caret) are the image of what the core yields for the same calls (C19_outputs, C19_state, C19_error_text_*); NEW yields exactly the fresh interpreter (C19_new); the modelled handlers are the script's: the call skeleton regenerated from main.ts on every run equals the modelled one (C19_skeleton). Tied to the code by driving the real adapter natively through a Rust transliteration of main.ts side by side with a bare core interpreter, the model page answering every event identically.",
         "design_ref": "DESIGN.md 6 C19",
-        "note": NOTE + "PARTIAL: trap-freedom of the start-up loader is validated (correspondence + oracle over generated start-up files), not proved; wasm32 (32-bit usize, 1 MiB stack) is not executed; the DOM side (ui.ts) is not modelled; main.ts cannot be compiled here: it is tied by the generated call skeleton and the transliteration.",
+        "note": NOTE + "Outside the model: wasm32 (32-bit usize, 1 MiB stack) is not executed; the DOM side (ui.ts) is not modelled; main.ts cannot be compiled here: it is tied by the generated call skeleton and the transliteration.",
         "technique": "Coq proof: adapter/page invariant by case analysis over the handlers on top of the core safety theorems (C01) + skeleton equality with the regenerated tables; native adapter vs core differential through a transliterated page script + model correspondence",
     },
 })
